@@ -524,6 +524,10 @@ class Session:
     def close(self):
         global CURRENT
         CURRENT = None
+        try:
+            transaction.abort()          # nothing of this session may have joined the thread's default transaction
+        except Exception:
+            pass
         for tm in [self.tm, self.ltm]:
             try:
                 tm.abort()
@@ -775,6 +779,21 @@ class Session:
             o = self.names.get(op[1])
             if isinstance(o, (Node, NodeNA)) and 'poison' in o.__dict__:
                 del o.poison
+        elif k == 'reopen':
+            # between two transactions: the primary connection (with its attached secondaries) goes back to
+            # the pool and is taken out again with the session's explicit transaction manager
+            if self.txn_open or self.failed:
+                return
+            c = self.conns[0]
+            try:
+                c.close()
+            except ConnectionStateError:
+                return
+            c2 = self.dbs[0].open(transaction_manager=self.tm)
+            self.count('reopen' + ('' if c2 is c else ':other-connection'))
+            if c2 is not c:                      # (never seen: the pool hands out the connection closed last)
+                self.connid[id(c2)] = self.connid[id(c)]
+                self.conns[0] = c2
         elif k == 'commit':
             self.do_commit()
         elif k == 'savepoint':
@@ -1145,6 +1164,42 @@ class Session:
                 c.cacheMinimize()     # leave only ghosts behind: pooled connections get paired anew
                 c.close()
 
+    def route_prepass(self, dbs, keys):
+        """Three databases: a connection whose primary is d1 follows references into d2 (the targets stay in
+        its cache) and goes back to the pool.  The walk that follows starts from d0 and reaches d1 and d2 both
+        directly and through that pooled pair: one in-memory object per (database, oid) in the whole group."""
+        recs = self._all_records(self.storages[1])
+        for oid in sorted(recs):
+            try:
+                c_, a_, s_, _ = decode_record(recs[oid])
+            except Exception:
+                continue
+            cross = [t for t in tree_leaves((a_ or []) + s_) if t[0] in 'MNW' and (t[0] != 'W' or ':' in t)]
+            tdb = {int(t[1:].split(':')[0]) if t[0] in 'MN' else int(t.rsplit(':', 1)[1]) for t in cross}
+            if tdb != {2}:
+                continue                          # (touching d0 here would pair a second d0 connection)
+            tm = transaction.TransactionManager()
+            c = dbs[1].open(transaction_manager=tm)
+            try:
+                o = c.get(oid)
+                o._p_activate()
+
+                def leaf(x):
+                    if isinstance(x, Persistent) and x._p_jar is not c:
+                        try:
+                            x._p_activate()
+                        except POSKeyError:
+                            pass
+                    return ['*']
+                tr_value(o.__getstate__(), leaf, {})
+                self.count('route-prepass')
+            except (POSKeyError, KeyError):
+                pass
+            finally:
+                tm.abort()
+                c.close()
+            return
+
     def load_phase(self, keys, variant, missing=False, reimport=False, factory=False):
         ktxt = ','.join('%d:%s' % (d, o.hex()) for d, o in keys)
         lenv = 'lenv %s %s' % (','.join(map(str, range(self.ndb))),
@@ -1192,6 +1247,8 @@ class Session:
                             close_db(db)
                 else:
                     self.weak_deref(dbs, keys)
+                if self.ndb == 3 and not (factory or missing or reimport):
+                    self.route_prepass(dbs, keys)
                 c = dbs[0].open(transaction_manager=transaction.TransactionManager())
                 res = [self.real_walk(c, keys) + (None if missing or reimport or factory else self.args_seen,)]
                 c.transaction_manager.abort()
@@ -2070,6 +2127,8 @@ def gen_case(rng, thorough=False):
             ops += [['poison', victim], ['touch', victim], ['commit']]
             return case
         ops.append(['commit'])
+        if ndb >= 2 and rng.random() < 0.35:
+            ops.append(['reopen'])
         res = [n for n in allnames if kinds[n] == 'R' and home[n] == 0]
         if case['storage'] == 'file' and res and rng.random() < 0.6:
             # a write conflict the class resolves: the storage re-pickles the resolved state (ours)
